@@ -160,6 +160,9 @@ def borrowedMask (ls : List Line) : List Bool :=
     let (m, inB) := acc
     if l.kind = "hist" then (false :: m, false)
     else if l.kind = "borrow" then (true :: (match m with | _ :: t => true :: t | [] => []), true)
+    -- sanitizer reports are judged by C19's own rule in every history (memory errors and aborts are violations, undefined
+    -- arithmetic is an observation): the blob mutations run inside borrowed histories too
+    else if l.kind = "san" || l.kind = "sanlog" then (false :: m, inB)
     else (inB :: m, inB)) ([], false)
   rev.reverse
 
